@@ -250,7 +250,8 @@ struct ptask {
         coro_queue q;
         ptask get_return_object() { return {}; }
         coro_queue::initial_awaiter initial_suspend() noexcept {
-            static_assert(coro_queue::initialize_policy());
+            bool (*policy)() = &coro_queue::initialize_policy;
+            if (!policy()) std::terminate();
             return coro_queue::initial_awaiter(q);
         }
         std::suspend_never final_suspend() noexcept { return {}; }
@@ -291,6 +292,7 @@ static suspend_point<void> collect(const std::vector<int> &ids) {
 
 // resolve the future a coroutine awaits through parallel(): parallel::perform_resume creates a thread, returns nothing
 static void wake_parallel(int d) {
+    if (d >= (int)G->co.size()) return;
     Co &c = G->get(d);
     if (c.parkkind == 4) {
         c.parkkind = 0;
@@ -483,7 +485,11 @@ static R body_t(int id) {
                     ch.starter = id;
                     ++G->depth;
                     if (a.k == START) ch.fut.reset(new future<void>(body(a.d).start()));
-                    else ch.fut.reset(new future<void>(body(a.d)()));
+                    else {
+                        async<void> tmp = body(a.d);
+                        async<void> moved(std::move(tmp));
+                        ch.fut.reset(new future<void>(moved()));
+                    }
                     --G->depth;
                 }
                 break;
